@@ -39,7 +39,8 @@ class SeededRandom(FakeModule):
         self.unseeded = SeededRandom._entropy[0]
 
     def seed(self, x=None):
-        self.state = (hash(x) & 0xFFFFFFFF) or 1
+        import zlib
+        self.state = (zlib.crc32(repr(x).encode()) & 0xFFFFFFFF) or 1
 
     def _next(self):
         if self.state is None:
